@@ -295,6 +295,12 @@ func eachCase(c *fw.Ctx, which map[string]bool, f func(sc streamCase)) {
 			single("multi", m[0], m[1])
 		}
 	}
+	// faulty Path declarations (C13's negative variants): a fault is a diagnostic, never a crash
+	if on("pathfaults") {
+		for _, f := range c13FaultDocs() {
+			single("pathfaults", f.label, f.text)
+		}
+	}
 	// paste graphs
 	if on("paste") {
 		maxN := 3
